@@ -246,16 +246,21 @@ def init(root) -> None:
             raise RuntimeError(f"generator bug: binding of {name} in variant {variant}")
 
 
+def _name(obj) -> str:
+    mod = getattr(obj, "__module__", None) or type(obj).__module__
+    return f"{mod}.{getattr(obj, '__qualname__', type(obj).__qualname__)}"
+
+
 def _diff(now: dict, snap: dict) -> list:
     out = []
     for k in snap:
         if k not in now:
             out.append([k, "removed"])
         elif now[k] is not snap[k]:
-            out.append([k, "rebound", type(now[k]).__module__ + "." + getattr(now[k], "__name__", type(now[k]).__name__)])
+            out.append([k, "rebound", _name(now[k])])
     for k in now:
         if k not in snap:
-            out.append([k, "added", type(now[k]).__module__ + "." + getattr(now[k], "__name__", type(now[k]).__name__)])
+            out.append([k, "added", _name(now[k])])
     return sorted(out)
 
 
@@ -294,21 +299,21 @@ def step(root, hist, op) -> dict:
 
 
 # ---------------------------------------------------------------- driver
-def _classify(obs) -> list[tuple[str, str]]:
-    """-> [(violation key, description)] for one observation."""
+def _classify(obs, first_bad_out=None) -> list[tuple[str, str]]:
+    """-> [(violation key, description)] for one observation.  `first_bad_out` is the
+    outcome of the step that first damaged the namespace in this history (defaults to
+    this step): later steps merely inherit the damage and are filed under the same key."""
     out = []
-    failed = obs["out"] != "ok"
-    when = "after-failed-step" if failed else "after-successful-step"
+    cause = first_bad_out if first_bad_out is not None else obs["out"]
+    when = "by-failed-step" if cause != "ok" else "by-successful-step"
     if obs["ns"]:
         shadow = sorted({d[0] for d in obs["ns"] if d[0] in SHADOWED})
         other = sorted({d[0] for d in obs["ns"] if d[0] not in SHADOWED})
-        kinds = sorted({d[1] for d in obs["ns"]})
         scope = "shadowed-names" if shadow and not other else ("other-names" if other and not shadow else "mixed")
-        out.append((f"module-namespace:{scope}:{'+'.join(kinds)}:{when}",
+        out.append((f"module-namespace-changed:{scope}:{when}",
                     f"module __dict__ changed ({obs['ns']})"))
     if obs["bi"]:
-        kinds = sorted({d[1] for d in obs["bi"]})
-        out.append((f"builtins-module:{'+'.join(kinds)}:{when}", f"builtins module changed ({obs['bi']})"))
+        out.append((f"builtins-module-changed:{when}", f"builtins module changed ({obs['bi']})"))
     return out
 
 
@@ -346,7 +351,14 @@ def run(ctx) -> dict:
             n_order += 1
         if len(h) > 1 and obs["out"] == "ok" and by_node[(ri, h[:-1])]["out"] != "ok":
             failed_then_ok += 1
-        for key, desc in _classify(obs):
+        first_bad = None
+        if obs["ns"] or obs["bi"]:
+            for k in range(1, len(h) + 1):
+                o = by_node[(ri, h[:k])]
+                if o["ns"] or o["bi"]:
+                    first_bad = o["out"]
+                    break
+        for key, desc in _classify(obs, first_bad):
             n_viol_obs += 1
             ctx.violation(
                 key,
@@ -401,6 +413,10 @@ def replay(ctx, item) -> dict:
         return trace
 
     trace = histx.run_forked(go, "replay")
-    viol = [k for obs in trace for k, _ in _classify(obs)]
+    viol, first_bad = [], None
+    for obs in trace:
+        if first_bad is None and (obs["ns"] or obs["bi"]):
+            first_bad = obs["out"]
+        viol.extend(k for k, _ in _classify(obs, first_bad))
     return {"violation": bool(viol), "keys": viol, "fault": fault_str(item["fault"]),
             "variant": item["variant"], "trace": trace}
